@@ -206,6 +206,13 @@ class Scen:
                 self.emit('%s.tail(%d%s)' % (f, off, self.rawarg()), [dict(src=s, dst=d, off=off, mf=False, l4=None, eth='ip', **o)])
             else:
                 self.emit('%s.datagram(%s)' % (f, self.rawarg(True).rstrip(', ')), [dict(src=s, dst=d, off=0, mf=False, l4=None, eth='ip', **o)])
+        if big is None and n % 8 and n >= 8 and r.chance(1, 2):
+            # requests that end exactly on the last FULL 8-byte block of a payload with a partial block behind it (MF must stay
+            # set), and the partial block itself (MF clear)
+            q = n // 8
+            a = r.below(q + 1)
+            self.emit('%s.fragment(%d, %d%s)' % (f, a, q - a, self.rawarg()), [dict(src=s, dst=d, off=a, mf=True, l4=None, eth='ip', **o)])
+            self.emit('%s.fragment(%d, 1%s)' % (f, q, self.rawarg()), [dict(src=s, dst=d, off=q, mf=False, l4=None, eth='ip', **o)])
     def sized(self, total):
         """one UDP datagram whose IP total length is exactly `total` (28..65535)"""
         n = total - 28
